@@ -13,7 +13,7 @@ import (
 
 func init() {
 	register("C27", propMeta{
-		Explanation:  "Decides the discipline of the code that writes the passive side: (R1) passive-writer siblings: every function that writes under formatPassiveFolderEntity or through a tracker copy with the folder toggler inverted (registry Replicate, store-repository Replicate, the fileIO replay `replicate`) must be a no-op when replication is off OR has already failed (`!replicate || FailedToReplicate`), and must call handleFailedToReplicate on every failed passive write, so that one failure turns replication off instead of repeating against a broken drive; (R2) a passive failure never fails a commit: the replication closures of phase2Commit return nil on every path and run only after the commit point; (R3) ReinstateFailedDrives runs its steps in the order the catch-up depends on: start logging commit changes, copy stores and registry segments, fast-forward until no log is left, turn replication on, fast-forward again; (R4) the reinstating copy copies every registry segment file of every store unconditionally: in copyFilesByExtension each directory entry with the extension reaches copyFile or an error return - no entry is skipped on the strength of the target's current state (size, time), which says nothing about a partially replicated commit; and what it copies is read from the active side, i.e. before the folder toggler is flipped towards the passive side.",
+		Explanation:  "Decides the discipline of the code that writes the passive side: (R1) passive-writer siblings: every function that writes under formatPassiveFolderEntity or through a tracker copy with the folder toggler inverted (registry Replicate, store-repository Replicate, the fileIO replay `replicate`) must be a no-op when replication is off OR has already failed (`!replicate || FailedToReplicate`), and must call handleFailedToReplicate on every failed passive write, so that one failure turns replication off instead of repeating against a broken drive; (R2) a passive failure never fails a commit: the replication closures of phase2Commit return nil on every path and run only after the commit point; (R3) ReinstateFailedDrives runs its steps in the order the catch-up depends on: start logging commit changes, copy stores and registry segments, fast-forward until no log is left, turn replication on, fast-forward again; (R4) the reinstating copy copies every registry segment file of every store unconditionally: in copyFilesByExtension each directory entry with the extension reaches copyFile or an error return - no entry is skipped on the strength of the target's current state (size, time), which says nothing about a partially replicated commit; and what it copies is read from the active side, i.e. before the folder toggler is flipped towards the passive side. (R5) fastForward replays the commit-change logs oldest first: ByModTime.Less's direction composed with the direction of the replay loop is ascending modification time.",
 		DoesNotCover: "Equality of the passive copy's contents after arbitrary histories and failover behaviour are runtime matters; what fast-forward applies is not decided.",
 	}, runC27)
 }
@@ -304,5 +304,93 @@ func runC27(c *Ctx) {
 				fmt.Sprintf("the repository is read after the toggler was flipped to the passive side (%v): the store info is looked up on the drive being reinstated, is not found on a replaced/empty drive, and the store's info and registry segments are skipped - the reinstated copy silently lacks stores", bad), nil)
 		}
 		c.Check(w.Reaches(w.Fn("fs.replicationTracker.copyStores"), keyIn("fs.StoreRepository.CopyToPassiveFolders")), r4, "copyStores reaches CopyToPassiveFolders", token.NoPos, "reachable", "the reinstatement no longer copies the stores", nil)
+	}
+
+	r5 := c.Rule("R5", "fastForward replays the commit-change logs oldest first: passive writes overwrite without a version check, so the newest log must be applied last; the order is the listing helper's sort direction composed with the direction of the replay loop", 3)
+	{
+		// direction of the sort: ByModTime.Less
+		fl := w.Fn("fs.ByModTime.Less")
+		c.Analysed(fl)
+		linfo := fl.Pkg.TypesInfo
+		sig := fl.Obj.Type().(*types.Signature)
+		pi, pj := sig.Params().At(0), sig.Params().At(1)
+		dir := 0 // +1 ascending (oldest first), -1 descending
+		if len(fl.Body.List) == 1 {
+			if rs, ok := fl.Body.List[0].(*ast.ReturnStmt); ok && len(rs.Results) == 1 {
+				if call, ok := ast.Unparen(rs.Results[0]).(*ast.CallExpr); ok && len(call.Args) == 1 {
+					if sel, ok := ast.Unparen(call.Fun).(*ast.SelectorExpr); ok {
+						recvI, recvJ := mentionsObj(linfo, sel.X, pi), mentionsObj(linfo, sel.X, pj)
+						argI, argJ := mentionsObj(linfo, call.Args[0], pi), mentionsObj(linfo, call.Args[0], pj)
+						switch {
+						case sel.Sel.Name == "Before" && recvI && argJ && !recvJ && !argI, sel.Sel.Name == "After" && recvJ && argI && !recvI && !argJ:
+							dir = 1
+						case sel.Sel.Name == "After" && recvI && argJ && !recvJ && !argI, sel.Sel.Name == "Before" && recvJ && argI && !recvI && !argJ:
+							dir = -1
+						}
+					}
+				}
+			}
+		}
+		c.Check(dir != 0, r5, "ByModTime.Less: sort direction recognised", fl.Decl.Pos(), map[int]string{1: "ascending modification time", -1: "descending modification time", 0: ""}[dir], "Less is not a single Before/After comparison of the two elements' ModTime", nil)
+		// the helper sorts with sort.Sort(ByModTime(...)), possibly reversed
+		fh := w.Fn("fs.getFilesSortedDescByModifiedTime")
+		c.Analysed(fh)
+		sorted := 0
+		for _, cs := range w.Sites(fh) {
+			if cs.Key == "sort.Sort" && len(cs.Call.Args) == 1 {
+				sorted++
+				if w.mentionsCall(fh, cs.Call.Args[0], "sort.Reverse") {
+					dir = -dir
+				}
+			}
+		}
+		c.Check(sorted == 1, r5, "listing helper sorts once with ByModTime", fh.Decl.Pos(), "one sort.Sort call", fmt.Sprintf("found %d sort.Sort calls", sorted), nil)
+		// direction of the replay loop in fastForward: the loop whose body reads files[i] / the range value
+		ff := w.Fn("fs.replicationTracker.fastForward")
+		c.Analysed(ff)
+		finfo := ff.Pkg.TypesInfo
+		var files types.Object
+		gff := w.G(ff)
+		for _, nc := range gff.callNodes("fs.getFilesSortedDescByModifiedTime") {
+			if v := gff.lhsVarOfCall(nc.n, nc.cs, 0); v != nil {
+				files = v
+			}
+		}
+		loopDir := 0
+		var loopPos token.Pos
+		if files != nil {
+			ast.Inspect(ff.Body, func(x ast.Node) bool {
+				switch lp := x.(type) {
+				case *ast.RangeStmt:
+					if mentionsObj(finfo, lp.X, files) && loopDir == 0 {
+						loopDir, loopPos = 1, lp.Pos()
+					}
+				case *ast.ForStmt:
+					uses := false
+					ast.Inspect(lp.Body, func(y ast.Node) bool {
+						if ix, ok := y.(*ast.IndexExpr); ok && mentionsObj(finfo, ix.X, files) {
+							uses = true
+						}
+						return true
+					})
+					if uses && loopDir == 0 {
+						if inc, ok := lp.Post.(*ast.IncDecStmt); ok {
+							loopPos = lp.Pos()
+							if inc.Tok == token.INC {
+								loopDir = 1
+							} else {
+								loopDir = -1
+							}
+						}
+					}
+				}
+				return true
+			})
+		}
+		if loopPos == token.NoPos {
+			loopPos = ff.Decl.Pos()
+		}
+		c.Check(loopDir != 0 && dir*loopDir == 1, r5, "fastForward: commit-change logs are replayed oldest first", loopPos, "sort direction x loop direction = ascending modification time",
+			fmt.Sprintf("the logs are replayed newest first (sort direction %+d, loop direction %+d): the passive side ends up with the OLDEST logged commit's handles and store info, replication is reported healthy and a later failover serves the stale state", dir, loopDir), nil)
 	}
 }
